@@ -120,9 +120,35 @@ class NBuilder(object):
     def opaque(self, name):
         return None
 
+    def optobj(self, name, obj):
+        return None if self.model.get(name + ".isnone", False) else obj
+
+    def lazy(self, name, alternatives):
+        k = int(self.model.get("lazy." + name, 0) or 0)
+        return alternatives[min(k, len(alternatives) - 1)]()
+
     def script(self, name):
         n = max(1, int(self._num(name + ".len", 1)))
         return ["M117 %s line %d" % (name, i) for i in range(min(n, 3))]
+
+    def realseq(self, name, even=False, min_len=0):
+        v = self.model.get(name) or {}
+        out = []
+        for x in v.get("realseq", []):
+            out.append(float(int(x["num"]) / int(x["den"])) if isinstance(x, dict) and "num" in x else
+                       float(x.get("float", 0.0)) if isinstance(x, dict) else float(x))
+        while len(out) < min_len:
+            out.append(0.0)
+        if even and len(out) % 2:
+            out.append(0.0)
+        return tuple(out)
+
+    def ordmap(self, name):
+        from collections import OrderedDict
+        d = OrderedDict()
+        for i in range(min(3, max(0, int(self._num(name + ".len", 0))))):
+            d["M%d" % (900 + i)] = "M%d S%d" % (900 + i, i)
+        return d
 
     def set_current_user(self, anonymous):
         import octoprint_excluderegion as m
